@@ -31,7 +31,12 @@ func init() {
 }
 
 // HCTrack starts remembering the Proxy instances created from now on.
-func HCTrack() { hcTracking, hcTracked = true, nil }
+func HCTrack() {
+	// a run that was cut off (step limit) never reached HCRelease: its caches
+	// must lose their finalizers before the next explicit GC between runs
+	HCRelease()
+	hcTracking, hcTracked = true, nil
+}
 
 // HCRelease detaches the memory-cache finalizers of the tracked instances.
 func HCRelease() {
